@@ -293,6 +293,9 @@ def setup_impl_env():
     """make sure the implementation that runs is /repo's working tree"""
     if REPO not in sys.path:
         sys.path.insert(0, REPO)
+    stubs = os.path.join(VERIF, 'harness', 'stubs')   # recording doubles for the absent sampler packages
+    if stubs not in sys.path:
+        sys.path.append(stubs)
     os.environ.setdefault('NUMBA_CACHE_DIR', os.path.join(CACHE, 'numba'))
     os.makedirs(os.environ['NUMBA_CACHE_DIR'], exist_ok=True)
     import warnings
